@@ -193,9 +193,9 @@ def c12(ck, tmp):
             text = "\n".join(tl)
         tok = tokenize_gfa(text)
         lines, reads, steps_l = [], [], []
-        for k in range(rng.randint(4, 14) if it % 6 else rng.randint(7, 14)):
+        for k in range(rng.randint(4, 14) if it % 6 else rng.randint(8, 14)):
             w = G.walk(rng, g, adj, maxsteps=5)
-            if it % 6 == 0 and k in (0, 1, 2, 3, 4, 5):
+            if it % 6 == 0 and k in (0, 1, 2, 3, 4, 5, 6):
                 w = [(g.segs[0]["id"], rng.choice("+-"))]
             pseq = "".join(seqd[n] if o == "+" else G.rc(seqd[n]) for n, o in w)
             if len(pseq) < 2:
@@ -213,6 +213,8 @@ def c12(ck, tmp):
                 a, b = 1000, 1000 + 600        # see below: a long insertion and, 150 bases later, a long deletion
             elif it % 6 == 0 and k == 5:
                 a, b = 2000, 2000 + rng.randint(10500, 12500)     # the same pattern in an alignment of more than 10 000 bases
+            elif it % 6 == 0 and k == 6:
+                a, b = 20000, 20000 + rng.randint(6000, 9500)     # see below: a one-base deletion and, a few bases on, a one-base insertion
             else:
                 a = rng.randrange(0, len(pseq) - 1)
                 b = rng.randrange(a + 1, min(len(pseq), a + 400) + 1)
@@ -242,6 +244,16 @@ def c12(ck, tmp):
                 n_i, n_d = rng.randint(90, 130), rng.randint(90, 130)
                 q = ref[:5000] + G.rseq(rng, n_i) + ref[5000:5150] + ref[5150 + n_d:]
                 cg = "5000=%dI150=%dD%d=" % (n_i, n_d, len(ref) - 5150 - n_d)
+            elif it % 6 == 0 and k == 6:
+                # read and path slice of EQUAL length that differ by a one-base deletion followed, w bases later, by a one-base
+                # insertion: as a gapless alignment that is 5-9 mismatches (cost 20-36), as the indel pair it costs 16 - any
+                # shortcut that skips the aligner for "nearly identical, same length" pairs shows here
+                p0 = 4000
+                w_ = 5
+                while w_ < 40 and sum(1 for i in range(p0, p0 + w_) if ref[i + 1] != ref[i]) < 5:
+                    w_ += 1
+                q = ref[:p0] + ref[p0 + 1:p0 + 1 + w_] + ref[p0 + w_] + ref[p0 + 1 + w_:]
+                cg = "%d=1D%d=1I%d=" % (p0, w_, len(ref) - p0 - 1 - w_)
             elif boundary:
                 q = list(ref)
                 for pos in rng.sample(range(len(q)), 3):
